@@ -1,4 +1,5 @@
 import Req.C02.Bufio
+import Req.C02.Reader
 import Req.Base.Ascii
 /-!
 C02 — the HTTP/1.1 body readers as incremental automata over `Bufio`:
@@ -252,16 +253,8 @@ def H1Body.new (f : Framing) (br : Bufio) : H1Body :=
   | .chunked => { src := .chunked Chunked.init, hdr := true, sawEOF := false, closed := false, trailer := none, br := br }
   | .close => { src := .untilClose, hdr := false, sawEOF := false, closed := false, trailer := none, br := br }
 
-/-- Apply a sequence of reads, stopping at the first one that reports an error (incl. EOF).
-Returns every read's result. -/
-def H1Body.runReads (bd : H1Body) : List Nat → List (Bytes × Option IOErr) × H1Body
-  | [] => ([], bd)
-  | k :: ks =>
-    let ((d, e), bd') := bd.read k
-    match e with
-    | some _ => ([(d, e)], bd')
-    | none =>
-      let (rs, bd'') := bd'.runReads ks
-      ((d, e) :: rs, bd'')
+/-- Apply a sequence of reads, stopping at the first one that reports an error (incl. EOF). -/
+def H1Body.runReads (bd : H1Body) (ks : List Nat) : List (Bytes × Option IOErr) × H1Body :=
+  _root_.Req.C02.runReads H1Body.read bd ks
 
 end Req.C02
